@@ -25,10 +25,10 @@ type bform struct {
 }
 
 type formCtx struct {
-	g      *goLayouts
-	subst  map[types.Object]ast.Expr // parameter -> argument (when inlining helpers)
-	termOf func(e ast.Expr) string   // optional override
-	depth  int
+	g     *goLayouts
+	env   map[types.Object]string // parameter -> caller's term (when inlining helper predicates)
+	alias map[*types.Var]string   // struct field -> canonical term (fields that carry the same quantity under different owners)
+	depth int
 }
 
 // term canonicalises an operand: receiver/variable names are replaced by their static type.
@@ -47,15 +47,17 @@ func (fc *formCtx) term(e ast.Expr) string {
 	switch x := e.(type) {
 	case *ast.Ident:
 		obj := fc.g.info.ObjectOf(x)
-		if arg, ok := fc.subst[obj]; ok {
-			saved := fc.subst
-			fc.subst = nil // arguments live in the caller's scope
-			defer func() { fc.subst = saved }()
-			return fc.term(arg)
+		if t, ok := fc.env[obj]; ok {
+			return t
 		}
 		return "$" + x.Name
 	case *ast.SelectorExpr:
 		if sel, ok := fc.g.info.Selections[x]; ok && sel.Kind() == types.FieldVal {
+			if fv, ok := sel.Obj().(*types.Var); ok {
+				if a, ok := fc.alias[fv]; ok {
+					return a
+				}
+			}
 			t := sel.Recv()
 			if pt, ok := t.(*types.Pointer); ok {
 				t = pt.Elem()
@@ -67,6 +69,8 @@ func (fc *formCtx) term(e ast.Expr) string {
 			return name + "." + x.Sel.Name
 		}
 		return types.ExprString(x)
+	case *ast.StarExpr:
+		return fc.term(x.X)
 	case *ast.CallExpr:
 		if fc.g.isBuiltin(x, "len") && len(x.Args) == 1 {
 			return "len(" + fc.term(x.Args[0]) + ")"
@@ -110,33 +114,23 @@ func (fc *formCtx) form(e ast.Expr) *bform {
 		if x.Name == "false" {
 			return &bform{op: "false"}
 		}
-		if arg, ok := fc.subst[fc.g.info.ObjectOf(x)]; ok {
-			saved := fc.subst
-			fc.subst = nil
-			defer func() { fc.subst = saved }()
-			return fc.form(arg)
-		}
 	case *ast.CallExpr:
-		// inline a repo predicate whose body is a single return
-		if fn := fc.g.calleeOf(x); fn != nil && fc.depth < 4 {
-			if fd := fc.g.decls[fn]; fd != nil && len(fd.Body.List) == 1 {
-				if rs, ok := fd.Body.List[0].(*ast.ReturnStmt); ok && len(rs.Results) == 1 {
-					sub := map[types.Object]ast.Expr{}
-					i := 0
-					for _, fl := range fd.Type.Params.List {
-						for _, nm := range fl.Names {
-							if i < len(x.Args) {
-								// resolve the argument in the current context first
-								sub[fc.g.info.ObjectOf(nm)] = x.Args[i]
-							}
-							i++
+		// inline a repo predicate: a single return, or a chain of `if c { return x }` guards ending in a return
+		if fn := fc.g.calleeOf(x); fn != nil && fc.depth < 5 {
+			if fd := fc.g.decls[fn]; fd != nil && fd.Body != nil {
+				env := map[types.Object]string{}
+				i := 0
+				for _, fl := range fd.Type.Params.List {
+					for _, nm := range fl.Names {
+						if i < len(x.Args) {
+							env[fc.g.info.ObjectOf(nm)] = fc.term(x.Args[i])
 						}
+						i++
 					}
-					inner := &formCtx{g: fc.g, subst: sub, depth: fc.depth + 1}
-					// arguments mention the caller's variables: pre-canonicalise by wrapping term()
-					outer := fc
-					inner.termOf = func(e ast.Expr) string { return outer.term(e) }
-					return inner.formInlined(rs.Results[0], outer)
+				}
+				inner := &formCtx{g: fc.g, env: env, alias: fc.alias, depth: fc.depth + 1}
+				if f := inner.bodyForm(fd.Body.List); f != nil {
+					return f
 				}
 			}
 		}
@@ -145,53 +139,36 @@ func (fc *formCtx) form(e ast.Expr) *bform {
 	return &bform{op: "opaque", text: fc.term(e)}
 }
 
-// formInlined evaluates a helper body; identifiers that are parameters are replaced by the caller's terms.
-func (fc *formCtx) formInlined(e ast.Expr, outer *formCtx) *bform {
-	// parameters substitute to argument expressions evaluated in the outer context
-	prev := fc.subst
-	conv := map[types.Object]string{}
-	for obj, arg := range prev {
-		conv[obj] = outer.term(arg)
+// bodyForm: the boolean value of a predicate body made of `if c { return x }` guards and a final `return y`.
+func (fc *formCtx) bodyForm(stmts []ast.Stmt) *bform {
+	if len(stmts) == 0 {
+		return nil
 	}
-	var rec func(e ast.Expr) *bform
-	termIn := func(e ast.Expr) string {
-		e = stripParenConv(fc.g, e)
-		if id, ok := e.(*ast.Ident); ok {
-			if t, ok := conv[fc.g.info.ObjectOf(id)]; ok {
-				return t
-			}
+	switch x := stmts[0].(type) {
+	case *ast.ReturnStmt:
+		if len(x.Results) != 1 {
+			return nil
 		}
-		fc2 := &formCtx{g: fc.g}
-		return fc2.term(e)
+		return fc.form(x.Results[0])
+	case *ast.IfStmt:
+		if x.Init != nil || x.Else != nil || len(x.Body.List) != 1 {
+			return nil
+		}
+		rs, ok := x.Body.List[0].(*ast.ReturnStmt)
+		if !ok || len(rs.Results) != 1 {
+			return nil
+		}
+		rest := fc.bodyForm(stmts[1:])
+		if rest == nil {
+			return nil
+		}
+		c := fc.form(x.Cond)
+		return &bform{op: "or", kids: []*bform{
+			{op: "and", kids: []*bform{c, fc.form(rs.Results[0])}},
+			{op: "and", kids: []*bform{{op: "not", kids: []*bform{c}}, rest}},
+		}}
 	}
-	rec = func(e ast.Expr) *bform {
-		e = stripParenConv(fc.g, e)
-		if x, ok := e.(*ast.BinaryExpr); ok {
-			switch x.Op {
-			case token.LAND:
-				return &bform{op: "and", kids: []*bform{rec(x.X), rec(x.Y)}}
-			case token.LOR:
-				return &bform{op: "or", kids: []*bform{rec(x.X), rec(x.Y)}}
-			case token.LSS:
-				return &bform{op: "atom", a: termIn(x.X), rel: "<", b: termIn(x.Y)}
-			case token.LEQ:
-				return &bform{op: "atom", a: termIn(x.X), rel: "<=", b: termIn(x.Y)}
-			case token.GTR:
-				return &bform{op: "atom", a: termIn(x.Y), rel: "<", b: termIn(x.X)}
-			case token.GEQ:
-				return &bform{op: "atom", a: termIn(x.Y), rel: "<=", b: termIn(x.X)}
-			case token.EQL:
-				return &bform{op: "atom", a: termIn(x.X), rel: "==", b: termIn(x.Y)}
-			case token.NEQ:
-				return &bform{op: "not", kids: []*bform{{op: "atom", a: termIn(x.X), rel: "==", b: termIn(x.Y)}}}
-			}
-		}
-		if x, ok := e.(*ast.UnaryExpr); ok && x.Op == token.NOT {
-			return &bform{op: "not", kids: []*bform{rec(x.X)}}
-		}
-		return &bform{op: "opaque", text: termIn(e)}
-	}
-	return rec(e)
+	return nil
 }
 
 func (f *bform) String() string {
